@@ -10,6 +10,8 @@ Unchanged(L) ==
   /\ g.version = w.version /\ g.addr = w.addr /\ g.nodeid = w.nodeid /\ g.rt = w.rt /\ g.forwarder = w.forwarder /\ g.level = w.level
   /\ (L.st.maxrt = "ok" => g.maxrt = w.maxrt)
   /\ g.ifaddrs = w.ifaddrs /\ g.iftypes = w.iftypes /\ g.dnns = w.dnns /\ g.cidrs = w.cidrs
+  \* the optional values (description, interface name / ifname / mtu, NAT interface, logger switches), in document order
+  /\ g.extra = w.extra
 Judge(L) ==
   IF L.panic # "" THEN {"C20:configuration reading faulted"}
   ELSE UNION {
